@@ -166,6 +166,10 @@ func Run(c *lib.Ctx) {
 			c.Count(slow(c, "refused write", func() string { return refusedWriteCase(c, r, &fails) }))
 		}
 		c.Count(slow(c, "add after close", func() string { return addAfterCloseCase(c, &fails) }))
+		for n := 1; n <= 4; n++ {
+			n := n
+			c.Count(slow(c, "closed port revisited", func() string { return closedPortRevisitedCase(c, n, 1+n%2, &fails) }))
+		}
 	}
 
 	lap("refused write / add-after-close")
